@@ -405,7 +405,12 @@ func main() {
 			for ; rounds < 120 && !done(); rounds++ {
 				for q := 0; q < len(pool); q++ { // the pool grows while we deliver
 					for _, j := range honest {
-						if dead[j] || pool[q].from == j || sent[[2]int{q, j}] || msgH(pool[q].op) != height[j] {
+						// block parts are offered again every round: the reactor's data gossip keeps sending a peer
+						// the parts it lacks (a node that enters Commit for a block it has not got asks for them
+						// with a CommitStep message), so one delivery at a moment the node expected another block's
+						// parts is not the last one
+						again := strings.HasPrefix(pool[q].op, "parts ")
+						if dead[j] || pool[q].from == j || (sent[[2]int{q, j}] && !again) || msgH(pool[q].op) != height[j] {
 							continue
 						}
 						sent[[2]int{q, j}] = true
